@@ -5,6 +5,7 @@ import Lemmas.StoreMeta
 import Model.Store.Project
 import Model.Store.Search
 import Lemmas.StoreSqlSmallScope
+import Lemmas.StoreSqlFrame
 /-! C04 — what the read API reports is the replay of the log   (**PARTIAL**: see `checks/c04.py` META).
 
 Stage 1 (this part of the file): the laws of `Store.replay`, the independent fold the property speaks about.  They hold
@@ -438,6 +439,47 @@ What is missing for the full theorem: an induction over arbitrary log sequences 
 (the executable comparison of the check covers longer histories by sampling and by enumeration to depth 3 / 4). -/
 theorem projection_refines_replay_partial_small_scope : (Search.histories 2).all smallScopeOk = true :=
   StoreSql.smallScope_depth2
+
+-- ---- unbounded facts about some GENERATED definitions (every database state, every argument)
+
+/-- clause (iv), the writing half, for EVERY database state: the generated `revert_transaction` sets `reverted_at` on exactly
+the rows with that id and ledger, changes no other column of `transactions`, and leaves moves and accounts alone -/
+theorem revert_sets_reverted_at_exactly (db : DB) (l id d : Val) :
+    (revert_transaction db l id d).transactions =
+      db.transactions.map (fun r => if truthy (Val.and (Val.eq r.id id) (Val.eq r.ledger l)) then { r with reverted_at := d } else r) ∧
+    (revert_transaction db l id d).moves = db.moves ∧ (revert_transaction db l id d).accounts = db.accounts := by
+  obtain ⟨hs, _, g2, _, g4, _, g6, _⟩ := update_transactions_effect db (fun r => Val.and (Val.eq r.id id) (Val.eq r.ledger l))
+    (fun r => { r with reverted_at := d })
+  exact ⟨g2, g6, g4⟩
+
+/-- … and the two metadata writers on transactions never touch `reverted_at` -/
+theorem metadata_updates_keep_reverted_at (db : DB) (l id v d : Val) :
+    (update_transaction_metadata db l id v d).transactions.map (fun r => r.reverted_at) = db.transactions.map (fun r => r.reverted_at) ∧
+    (delete_transaction_metadata db l id v d).transactions.map (fun r => r.reverted_at) = db.transactions.map (fun r => r.reverted_at) := by
+  obtain ⟨_, _, g2, _⟩ := update_transactions_effect db (fun r => Val.and (Val.eq r.id id) (Val.eq r.ledger l))
+    (fun r => { r with metadata := Val.concat r.metadata v, updated_at := d })
+  obtain ⟨_, _, k2, _⟩ := update_transactions_effect db (fun r => Val.and (Val.eq r.id id) (Val.eq r.ledger l))
+    (fun r => { r with metadata := Val.sub r.metadata v, updated_at := d })
+  constructor
+  · show (update_transactions db _ _).transactions.map _ = _
+    rw [g2, List.map_map]; apply List.map_congr_left; intro r _
+    by_cases h : truthy (Val.and (Val.eq r.id id) (Val.eq r.ledger l)) = true <;> simp [h]
+  · show (update_transactions db _ _).transactions.map _ = _
+    rw [k2, List.map_map]; apply List.map_congr_left; intro r _
+    by_cases h : truthy (Val.and (Val.eq r.id id) (Val.eq r.ledger l)) = true <;> simp [h]
+
+/-- clause (v), **partial — three of the generated functions, but every database state**: `revert_transaction`,
+`update_transaction_metadata` and `delete_transaction_metadata` called for ledger `l` (with the revision rows their
+trigger appends) leave the rows of every other ledger `l'` in all five tables exactly as they were.  Missing: the insert
+path (`insert_transaction` → `insert_posting` → `insert_move`, `upsert_account`, `delete_account_metadata`), covered only by
+evaluation (`projection_refines_replay_partial_small_scope`, the check's streams). -/
+theorem projection_frame_partial (db : DB) (l l' : String) (hne : l ≠ l') (id v d : Val) :
+    ofLedger l' (revert_transaction db (.text l) id d) = ofLedger l' db ∧
+    ofLedger l' (update_transaction_metadata db (.text l) id v d) = ofLedger l' db ∧
+    ofLedger l' (delete_transaction_metadata db (.text l) id v d) = ofLedger l' db :=
+  ⟨update_transactions_frame db l l' hne (fun r => Val.eq r.id id) (fun r => { r with reverted_at := d }) (fun _ => rfl),
+   update_transactions_frame db l l' hne (fun r => Val.eq r.id id) (fun r => { r with metadata := Val.concat r.metadata v, updated_at := d }) (fun _ => rfl),
+   update_transactions_frame db l l' hne (fun r => Val.eq r.id id) (fun r => { r with metadata := Val.sub r.metadata v, updated_at := d }) (fun _ => rfl)⟩
 
 /-- DESIGN §6 #22 (latent: the Go read API never passes `_before`, and never calls `aggregate_ledger_volumes`):
 `get_account_balance(…, _before)` picks the latest move BY SEQ among those with `effective_date <= _before` and reads the
